@@ -374,7 +374,15 @@ def run_real(kind, flavour, script, rt=0.4, answer=True, hold=0.0):
                 loop = asyncio.new_event_loop()
                 if kind == "tcp":
                     loop.create_connection = _logged_async(log, loop.create_connection)
-                loop.set_exception_handler(lambda lp, ctx: meta["loop_errors"].append(repr(ctx.get("exception") or ctx.get("message"))[:160]))
+                def on_loop_error(lp, ctx):
+                    # asyncio transports report a fatal I/O error through the loop's exception handler before they call
+                    # connection_lost: that is the transport doing its job, not an unhandled error of the library
+                    if ctx.get("transport") is not None and str(ctx.get("message", "")).startswith("Fatal"):
+                        meta["transport_fatal_errors"] = meta.get("transport_fatal_errors", 0) + 1
+                        return
+                    meta["loop_errors"].append(repr(ctx.get("exception") or ctx.get("message"))[:160])
+
+                loop.set_exception_handler(on_loop_error)
                 loop_thread = threading.Thread(target=loop.run_forever, daemon=True, name="vf-loop")
                 loop_thread.start()
 
@@ -742,4 +750,155 @@ def check_stress(out):
         V.append((f"real-stress:link-not-re-established:{kind}", "the link was not re-established after the faults stopped"))
     out["stats"] = {"received": sum(seen.values()), "distinct": len(seen), "queued": sum(out.get("queued", {}).values()), "drops": out.get("drops", 0),
                     "connections": len(per_conn), "other_thread_errors": sum(1 for e in out["errors"] if not str(e[0]).startswith("_poll_queue"))}
+    return V
+
+
+def run_stress_async(kind, seed, churn_s=2.0, producers=3, rt=0.05, pace=(0.003, 0.01, 0.03, 0.08)):
+    """The asyncio gateways under the same connection churn (commands are queued onto the loop from producer threads
+    with call_soon_threadsafe). Same result shape as run_stress, plus callback and accept counts."""
+    import random
+    import mysensors.gateway_serial as mgs
+    import mysensors.gateway_tcp as mgt
+
+    rng = random.Random(seed)
+    log = Log()
+    tmp = tempfile.mkdtemp(prefix="vf-astress-")
+    dev = TcpDevice(log, True) if kind == "tcp" else PtyDevice(log, tmp)
+    loop = asyncio.new_event_loop()
+    loop_errors = []
+    fatal = [0]
+
+    def on_loop_error(lp, ctx):
+        if ctx.get("transport") is not None and str(ctx.get("message", "")).startswith("Fatal"):
+            fatal[0] += 1
+            return
+        loop_errors.append(repr(ctx.get("exception") or ctx.get("message"))[:160])
+
+    loop.set_exception_handler(on_loop_error)
+    th = threading.Thread(target=loop.run_forever, daemon=True, name="vf-loop")
+    th.start()
+    out = {"kind": kind, "seed": seed, "errors": [], "loop_errors": loop_errors}
+
+    def on_loop(coro_fn, timeout=30.0):
+        return asyncio.run_coroutine_threadsafe(coro_fn(), loop).result(timeout)
+
+    try:
+        async def build():
+            if kind == "tcp":
+                return mgt.AsyncTCPGateway("127.0.0.1", port=dev.port, protocol_version="2.2", reconnect_timeout=rt)
+            return mgs.AsyncSerialGateway(dev.link, protocol_version="2.2", reconnect_timeout=rt)
+
+        gw = on_loop(build)
+        gw.on_conn_made = lambda *a: log.add("MADE", True)
+        gw.on_conn_lost = lambda *a: log.add("LOST", True, None)
+        asyncio.run_coroutine_threadsafe(gw.start(), loop)
+        log.wait(lambda: log.count("MADE") >= 1, 5.0, "first connection")
+        stop_prod = threading.Event()
+        counts = {}
+
+        def producer(p):
+            n = 0
+            r = random.Random(seed * 31 + p)
+            while not stop_prod.is_set():
+                n += 1
+                loop.call_soon_threadsafe(gw.tasks.add_job, str, f"9;{p};1;0;24;{p * 1000000 + n}\n")
+                counts[p] = n
+                time.sleep(r.choice([0.0005, 0.002, 0.004]))
+
+        threads = [threading.Thread(target=producer, args=(p,), daemon=True, name=f"vf-prod-{p}") for p in range(1, producers + 1)]
+        for t in threads:
+            t.start()
+        t_end = time.monotonic() + churn_s
+        drops = 0
+        while time.monotonic() < t_end:
+            time.sleep(rng.choice(pace))
+            if dev.live() is not None:
+                if kind == "tcp":
+                    dev.drop(rng.choice(["rst", "eof"]))
+                else:
+                    dev.drop("unplug")
+                    time.sleep(0.01)
+                    dev.up()
+                drops += 1
+        stop_prod.set()
+        for t in threads:
+            t.join(2.0)
+        out["drops"] = drops
+        settled = log.wait(lambda: dev.live() is not None and getattr(dev.live(), "peer_open", True) and log.count("MADE") > log.count("LOST"),
+                           10 * rt + 5.0, "link re-established after the churn")
+        time.sleep(0.3)
+        log.add("ACTION", "final-batch", None)
+        final = []
+        for k in range(20):
+            for p in range(1, producers + 1):
+                i = p * 1000000 + 900000 + k
+                final.append(i)
+                loop.call_soon_threadsafe(gw.tasks.add_job, str, f"9;{p};1;0;24;{i}\n")
+        want = set(final)
+
+        def got_final():
+            seen = set()
+            for e in log.snap():
+                if e[1] == "RX":
+                    for part in e[3].split(b"\n"):
+                        f = part.split(b";")
+                        if len(f) == 6 and f[5].isdigit():
+                            seen.add(int(f[5]))
+            return want <= seen
+
+        out["final_delivered"] = log.wait(got_final, 8.0, "final batch delivered")
+        out["settled"] = settled
+        log.add("STOPPING")
+        on_loop(gw.stop)
+
+        async def _settle():
+            for _ in range(4):
+                await asyncio.sleep(0)
+        on_loop(_settle)
+        log.add("STOPPED")
+        time.sleep(0.3)
+        out["queued"] = dict(counts)
+        out["final"] = final
+        out["transport_fatal_errors"] = fatal[0]
+    finally:
+        try:
+            dev.close()
+        except Exception:
+            pass
+
+        def _cancel_all():
+            for t in asyncio.all_tasks(loop):
+                t.cancel()
+            loop.call_later(0.05, loop.stop)
+        loop.call_soon_threadsafe(_cancel_all)
+        th.join(3.0)
+        if not loop.is_running():
+            loop.close()
+        shutil.rmtree(tmp, ignore_errors=True)
+    out["events"] = log.snap()
+    return out
+
+
+def check_churn_callbacks(out, flavour):
+    """Callback exactness over a churn run: after stop() every made connection has been reported lost exactly once, and
+    (TCP) the device accepted exactly as many connections as were reported made; nothing happens after stop()."""
+    V = []
+    ev = out["events"]
+    tag = f"{out['kind']}:{flavour}"
+    i_stop = next((i for i, e in enumerate(ev) if e[1] == "STOPPED"), None)
+    if i_stop is None:
+        return [(f"real-churn:stop-did-not-return:{tag}", "stop() never returned")]
+    made = sum(1 for e in ev if e[1] == "MADE")
+    lost = sum(1 for e in ev if e[1] == "LOST")
+    acc = sum(1 for e in ev if e[1] == "ACCEPT")
+    if made != lost:
+        V.append((f"real-churn:lost-count:{'more' if lost > made else 'fewer'}:{tag}", f"{made} connections reported made, {lost} reported lost after stop()"))
+    if out["kind"] == "tcp" and acc != made:
+        V.append((f"real-churn:made-count:{'more' if made > acc else 'fewer'}:{tag}", f"the device accepted {acc} connections, on_conn_made was called {made} times"))
+    for e in ev[i_stop + 1:]:
+        if e[1] in ("MADE", "LOST", "ACCEPT", "RX"):
+            V.append((f"real-churn:activity-after-stop:{e[1]}:{tag}", f"stop() returned at t={ev[i_stop][0]}, then {e[:3]}"))
+            break
+    for msg in out.get("loop_errors", []):
+        V.append((f"real-churn:loop-error:{tag}", f"unhandled error in the event loop: {msg}"))
     return V
